@@ -335,6 +335,39 @@ def langCall (E : Env) (p : Path) (args : List GoVal) : Res (ThisObs × List Vie
 def langRun (E : Env) (p : Path) (b : Exit) (args : List GoVal) : Res Run :=
   (langCall E p args).map fun (t, vs) => ⟨[t], exitOf b (isNewPath p) 1 t vs⟩
 
+/-! ### (d) re-entrant calls: Otto.Call / Otto.Run / Value.Call / Object.Call made by a host function behave
+    as the call written as GLOBAL code, whatever the calling JavaScript function shadows; Otto.Eval is the
+    documented exception ("without leaving the current scope"): it is a direct eval in the caller (§10.4.2). -/
+def reentryResolves (r : Reentry) (s : Shadow) : Binding :=
+  match r, s with
+  | .ottoEval, .none => .global
+  | .ottoEval, _ => .local
+  | _, _ => .global
+
+/-! ### (e) the Go API never panics on hostile or degenerate input: it returns an error or a defined result -/
+def apiSpec : ApiCase → ApiOut
+  | .runThrowToStringThrows => .errPlain      -- Run returns an error (catchPanic's contract)
+  | .runThrowUnconvertible => .errPlain
+  | .badIsNaN => .text "false"                -- it does not convert to NaN (the conversion throws)
+  | .badToString => .errClass "RangeError"
+  | .badToInteger => .errClass "RangeError"
+  | .badToFloat => .errClass "RangeError"
+  | .badToBoolean => .text "true"             -- §9.2: an object is true, no conversion runs
+  | .badString => .text ""                    -- documented: empty string if there is an error
+  | .badClass => .text "Object"
+  | .callerLocationNoScript => .text "<unknown>"   -- there is no calling frame
+  | .callerLocationScript => .text "<anonymous>:1:1"
+  | .setNilObject => .text "undefined"        -- like every other nil pointer (value.go "FIXME: UNDEFINED")
+  | .toValueNilObject => .text "undefined"
+  | .argNilObject => .text "undefined"
+  | .toValueNilValue => .text "undefined"
+  | .marshalFunction => .text "null"          -- a json.Marshaler must return JSON; as undefined -> null, and [f] -> [null]
+  | .marshalObjectWithFunction => .text "{\"b\":1}"
+  | .marshalUndefined => .text "null"
+  | .callTwoStatements => .text "G/fundefined,g7"   -- not ONE expression: general path = (eval source).call(undefined, 7)
+  | .callTwoStatementsThis => .text "G/fundefined,g7"
+  | .callExprStatement => .text "G/g7"
+
 /-! ### Deviation regions (decidable predicates over the request; witnesses in Theorems.lean) -/
 namespace Dev
 
@@ -437,6 +470,19 @@ def nodeHole : HNode → Bool
   | .arr es => es.any fun e => match e with | none => true | some v => hvalHole v
   | .obj ps => ps.any fun p => hvalHole p.2
 def heapHole (H : Heap) (v : HVal) : Bool := hvalHole v || H.any nodeHole
+
+/-- region of an API edge case -/
+def apiRegion : ApiCase → Option String
+  | .runThrowToStringThrows => some "run_thrown_value_tostring_go_panic"
+  | .runThrowUnconvertible => some "run_thrown_value_tostring_go_panic"
+  | .badIsNaN => some "isnan_conversion_go_panic"
+  | .callerLocationNoScript => some "callerlocation_no_caller_go_panic"
+  | .setNilObject => some "nil_object_pointer_go_panic"
+  | .toValueNilObject => some "nil_object_pointer_go_panic"
+  | .argNilObject => some "nil_object_pointer_go_panic"
+  | .marshalFunction => some "marshal_function_not_json"
+  | .callTwoStatements => some "call_source_first_statement"
+  | _ => none
 
 end Dev
 
